@@ -210,3 +210,198 @@ Example C18_http_ex_cancelled_boot : exists s,
 Proof. eexists. split; [vm_compute; reflexivity|]. repeat split. Qed.
 Example C18_http_ex_no_foreign : HttpInvStep2.no_foreign c18_http_sched /\ HttpInvStep2.no_foreign c18_http_cancelled.
 Proof. split; repeat constructor. Qed.
+
+(* ====================================================================================== *)
+(* C18, HTTP cluster leg (runnables/httpcluster).  Models: ClusterLTS.v (the Run loop, C16) and
+   ClusterGo.v (the goroutine census on top of it: [g_run] = server instances whose
+   createAndStartServer goroutine is alive; [helpers] = stopServers goroutines; [main_alive] = the
+   goroutine inside Run).  A schedule is any list of labels: any sequence of config maps over any
+   ids (restarts of the same id included), factory errors, servers that never become ready or
+   report Error, slow Stop()s, Stop()/cancel/close(siphon) at any point, servers' Run returning at
+   any time after it was called.  [settledb g]: no server goroutine of [g_run] is still owed by the
+   environment (Stop() has not returned for it and the parent context is live) or has yet to call
+   Run - the states in which the harness compares the census with the real goroutine dump.
+   Statements only. *)
+From GS Require Import Cluster ClusterLTS ClusterMain ClusterGo ClusterCensus.
+Open Scope nat_scope.
+
+(* (i) After Run() has returned - whatever the history - no goroutine of the cluster is left once
+   the servers have honoured their contract. *)
+Theorem C18_cluster_clean : forall d g,
+  reachable (gstep true) (ginit d) g -> ClusterLTS.s_pc (g_s g) = PRet -> settledb g = true ->
+  ClusterGo.census g = 0.
+Proof. exact cluster_census_clean. Qed.
+
+(* (ii) While running, at every settled point: 1 (Run) + one goroutine per server started and not
+   yet stopped + one helper per pending Stop(), and there are never more helpers than such servers.
+   Nothing in the bound depends on the number of config updates, restarts or failed starts so far. *)
+Theorem C18_cluster_bounded : forall d g,
+  reachable (gstep true) (ginit d) g -> settledb g = true ->
+  ClusterGo.census g <= 1 + started_not_stopped (g_s g) + helpers (g_s g) /\
+  helpers (g_s g) <= started_not_stopped (g_s g).
+Proof. exact cluster_census_bounded. Qed.
+
+(* ... with the loop idle: at most 1 + GetServerCount() goroutines. *)
+Theorem C18_cluster_bounded_idle : forall d g,
+  reachable (gstep true) (ginit d) g -> settledb g = true -> ClusterLTS.s_pc (g_s g) = PIdle ->
+  ClusterGo.census g <= 1 + count (s_entries (g_s g)).
+Proof. exact cluster_census_idle. Qed.
+
+(* (iii) In EVERY reachable state, settled or not, the only goroutines beyond that bound are server
+   goroutines whose Stop() has already returned ([zombies]: the Runnable contract obliges them to
+   end) ... *)
+Theorem C18_cluster_bounded_all_states : forall d g,
+  reachable (gstep true) (ginit d) g ->
+  ClusterGo.census g <= 1 + 2 * started_not_stopped (g_s g) + length (zombies g).
+Proof. exact cluster_census_all_states. Qed.
+
+(* ... and the cluster never blocks one of them: a server goroutine can always take its next step
+   (call Run if it has not yet, otherwise return and end). *)
+Theorem C18_cluster_server_goroutine_can_end : forall fx g i,
+  In i (g_run g) ->
+  if memN i (s_unrun (g_s g))
+  then exists s', ClusterLTS.step fx (g_s g) (ClusterLTS.LRunCall i) = Some s'
+  else exists g', gstep fx g (GRunRet i) = Some g' /\ g_run g' = removeN i (g_run g).
+Proof. exact cluster_owed_can_end. Qed.
+
+(* The census observation of the harness is accepted by the model only in a settled state and only
+   with the model's own numbers (so an accepted trace's goroutine dumps are the model's census),
+   and a census schedule is a schedule of the C16 protocol model (all C16 theorems apply). *)
+Theorem C18_cluster_observation_sound : forall fx g m h r g',
+  gstep fx g (GCensus m h r) = Some g' ->
+  g' = g /\ settledb g = true /\ N.to_nat m + N.to_nat h + N.to_nat r = ClusterGo.census g.
+Proof. exact gcensus_label_sound. Qed.
+
+Theorem C18_cluster_schedules_project : forall fx ls g g',
+  run (gstep fx) g ls = Some g' -> run (ClusterLTS.step fx) (g_s g) (erase ls) = Some (g_s g').
+Proof. exact grun_erase. Qed.
+
+Print Assumptions C18_cluster_clean.
+Print Assumptions C18_cluster_bounded.
+Print Assumptions C18_cluster_bounded_idle.
+Print Assumptions C18_cluster_bounded_all_states.
+Print Assumptions C18_cluster_server_goroutine_can_end.
+Print Assumptions C18_cluster_observation_sound.
+Print Assumptions C18_cluster_schedules_project.
+
+(* non-vacuity: three rounds on the same id (start; restart with a never-ready replacement next to a
+   factory error; start again), census observed in between, cancel, shutdown: Run returned, settled,
+   census 0.  And the bound of (ii) is attained: two servers both inside slow Stop()s. *)
+Example C18_ex_cluster_clean_run :
+  exists g, run (gstep true) (ginit false) census_schedule = Some g /\
+            ClusterLTS.s_pc (g_s g) = PRet /\ settledb g = true /\ ClusterGo.census g = 0 /\
+            s_next (g_s g) = 3%N.
+Proof. exact census_schedule_runs. Qed.
+Example C18_ex_cluster_peak :
+  exists g, run (gstep true) (ginit false) census_schedule_peak = Some g /\
+            settledb g = true /\ ClusterGo.census g = 5 /\ started_not_stopped (g_s g) = 2 /\
+            helpers (g_s g) = 2.
+Proof. exact census_schedule_peak_runs. Qed.
+
+(* ====================================================================================== *)
+(* C18, internal/finitestate leg (subscriptions of every bundled runnable and of the supervisor's
+   state monitors).  Models: Fsm.v (the machine, the broadcast manager, the GetStateChan forwarder;
+   [Fsm.step] = the repaired forwarder (send-or-ctx.Done; after the cancel a value in flight waits
+   for room in the wrapped channel for a bounded grace only, then it is discarded - a timed internal
+   step - and the forwarder goes on until the manager channel is closed),
+   [stepx false] = the unchanged code) and FsmGo.v (census: forwarders, the manager's cleanup
+   goroutines, broadcast senders; [quietb]: no internal label of any subscriber is enabled - the
+   consumer's labels LRecv / LRecvClosed are NOT internal, so nothing is assumed about consumers:
+   they may never read, read slowly or stop mid-way).  A schedule is any list of labels: any
+   sequence of machine calls, subscriptions, cancellations, deliveries, timeouts, reads.
+   Statements only. *)
+From GS Require Import Fsm FsmTable FsmGo FsmCensus.
+
+(* After a subscription's context is cancelled, in every quiescent state its forwarder and its
+   cleanup goroutine are gone - for every consumer behaviour and every transition history. *)
+Theorem C18_fsm_clean : forall cfg ls s i x,
+  run (Fsm.step cfg) Fsm.init ls = Some s -> quietb fix_fwd cfg s = true ->
+  nth_error (Fsm.subs s) i = Some x -> cancelled x = true ->
+  fwd_alive x = false /\ cln_alive x = false.
+Proof. exact fsm_cancelled_gone. Qed.
+
+(* An open subscription keeps both goroutines: nothing ends before the context does. *)
+Theorem C18_fsm_open_alive : forall cfg ls s i x,
+  run (Fsm.step cfg) Fsm.init ls = Some s -> nth_error (Fsm.subs s) i = Some x -> cancelled x = false ->
+  cln_alive x = true /\ (sg x = SLive -> fwd_alive x = true).
+Proof. exact fsm_open_alive. Qed.
+
+(* Hence in every quiescent state the forwarders (and the cleanup goroutines) are exactly the open
+   subscriptions and no broadcast sender is left: the census is 2 x (open subscriptions), whatever
+   the number of subscribe / cancel cycles and state changes so far. *)
+Theorem C18_fsm_no_accumulation : forall cfg ls s,
+  run (Fsm.step cfg) Fsm.init ls = Some s -> quietb fix_fwd cfg s = true ->
+  forwarders s = open_subs s /\ cleaners s = open_subs s /\ senders s = 0 /\
+  FsmGo.census s = 2 * open_subs s.
+Proof. exact fsm_census_exact. Qed.
+
+(* The executable form evaluated by the driver on the states its acceptor returns. *)
+Theorem C18_fsm_okb : forall cfg ls s,
+  run (Fsm.step cfg) Fsm.init ls = Some s -> quietb fix_fwd cfg s = true -> c18_okb s = true.
+Proof. exact fsm_c18_okb. Qed.
+
+(* The goroutine dump of the harness is accepted only in a state where every goroutine is blocked
+   (possibly on one of the two timers: 5 s broadcast timeout, 100 ms forwarder grace) and only with
+   the model's own numbers; a dump taken after a pause longer than the grace with no machine call in
+   flight only in a QUIESCENT state (to which C18_fsm_clean / _no_accumulation apply); a wrapper
+   schedule is a schedule of the machine model. *)
+Theorem C18_fsm_observation_sound : forall fx c g f cl b g',
+  FsmGo.gstep fx c g (GSnap f cl b) = Some g' ->
+  g' = g /\ stableb fx c (gm g) = true /\
+  f = forwarders (gm g) /\ cl = cleaners (gm g) /\ b = senders (gm g).
+Proof. exact gsnap_label_sound. Qed.
+
+Theorem C18_fsm_quiet_observation_sound : forall fx c g f cl b g',
+  FsmGo.gstep fx c g (GQuiet f cl b) = Some g' ->
+  g' = g /\ quietb fx c (gm g) = true /\
+  f = forwarders (gm g) /\ cl = cleaners (gm g) /\ b = senders (gm g).
+Proof. exact gquiet_label_sound. Qed.
+
+Theorem C18_fsm_schedules_project : forall fx c ls g g',
+  run (FsmGo.gstep fx c) g ls = Some g' -> run (stepx fx c) (gm g) (FsmGo.erase ls) = Some (gm g').
+Proof. exact FsmCensus.grun_erase. Qed.
+
+(* The UNCHANGED forwarder (for s := range userCh { wrappedCh <- s }) is refuted: one subscription
+   whose consumer never reads, one state change, cancel - the system is quiescent, the subscription
+   is cancelled and un-registered, and its forwarder is still blocked in its send ... *)
+Theorem C18_fsm_leak_legacy_refuted :
+  exists s x, run (stepx false fsm_cfg) Fsm.init leak_witness = Some s /\
+              quietb false fsm_cfg s = true /\ nth_error (Fsm.subs s) 0 = Some x /\
+              cancelled x = true /\ unsub x = true /\ got x = [] /\
+              fwd_alive x = true /\ forwarders s = 1 /\ open_subs s = 0.
+Proof. exact leak_legacy. Qed.
+
+(* ... and such forwarders accumulate over subscribe / change / cancel cycles. *)
+Theorem C18_fsm_leak_legacy_accumulates :
+  exists s, run (stepx false fsm_cfg) Fsm.init (leak_cycle 0 ++ leak_cycle 1 ++ leak_cycle 2) = Some s /\
+            quietb false fsm_cfg s = true /\ open_subs s = 0 /\ forwarders s = 3.
+Proof. exact leak_legacy_accumulates. Qed.
+
+(* On the repaired model the same history is not quiescent (the forwarder can discard the value it
+   holds and then ends on the closed manager channel), and after those two steps nothing is left. *)
+Theorem C18_fsm_leak_repaired :
+  run (Fsm.step fsm_cfg) Fsm.init leak_witness <> None /\
+  (forall s, run (Fsm.step fsm_cfg) Fsm.init leak_witness = Some s -> quietb fix_fwd fsm_cfg s = false) /\
+  exists s, run (Fsm.step fsm_cfg) Fsm.init (leak_witness ++ [LFwdAbort 0; LFwdClose 0]) = Some s /\
+            quietb fix_fwd fsm_cfg s = true /\ forwarders s = 0 /\ FsmGo.census s = 0.
+Proof. exact leak_repaired. Qed.
+
+Print Assumptions C18_fsm_clean.
+Print Assumptions C18_fsm_open_alive.
+Print Assumptions C18_fsm_no_accumulation.
+Print Assumptions C18_fsm_okb.
+Print Assumptions C18_fsm_observation_sound.
+Print Assumptions C18_fsm_quiet_observation_sound.
+Print Assumptions C18_fsm_schedules_project.
+Print Assumptions C18_fsm_leak_legacy_refuted.
+Print Assumptions C18_fsm_leak_legacy_accumulates.
+Print Assumptions C18_fsm_leak_repaired.
+
+(* non-vacuity: three subscribe / cancel cycles during a transition burst - an absent consumer (its
+   forwarder discards two values), a consumer that reads one value and stops, a consumer that drains and sees
+   the close - then a fourth subscription stays open: quiescent, 4 subscriptions made, 1 open,
+   census 2 (its forwarder and its cleanup goroutine). *)
+Example C18_ex_fsm_cycles :
+  exists s, run (Fsm.step fsm_cfg) Fsm.init census_run = Some s /\ quietb fix_fwd fsm_cfg s = true /\
+            length (Fsm.subs s) = 4 /\ open_subs s = 1 /\ forwarders s = 1 /\ FsmGo.census s = 2.
+Proof. exact census_run_ok. Qed.
